@@ -8,6 +8,7 @@ import (
 	"encoding/base64"
 	"encoding/hex"
 	"errors"
+	"net"
 	"net/textproto"
 	"strconv"
 	"strings"
@@ -32,6 +33,10 @@ func Classify(err error) string {
 	}
 	if errors.Is(err, smtp.ErrUnencrypted) || errors.Is(err, smtp.ErrWrongHostname) {
 		return "ESTART"
+	}
+	var ne net.Error
+	if errors.As(err, &ne) && ne.Timeout() {
+		return "EIO"
 	}
 	var pe textproto.ProtocolError
 	if errors.As(err, &pe) {
